@@ -31,7 +31,7 @@ NA = -999999999
 DEFAULT_CONC = {"unit": 1.0, "off": 0, "tbase": 1577836800,  # 2020-01-01T00:00:00
                 "xc": "f64", "ac": "f64", "tc": "dt64ns", "spanc": "list", "pc": "kw"}
 
-DATA_CARRIERS = ["list_none", "list_nan", "tuple_nan", "f64", "f32", "i64", "ma_nan", "ma_junk",
+DATA_CARRIERS = ["list_none", "list_nan", "tuple_nan", "f64", "f32", "i64", "ma_nan", "ma_junk", "ma_mixed",
                  "series", "series_idx", "dask"]
 TIME_CARRIERS = ["dt64ns", "dt64us", "dt64ms", "dt64s", "pydt", "pdts", "dtindex", "series_naive",
                  "series_utc", "dtindex_utc", "epoch_list", "epoch_i64", "epoch_f64"]
@@ -72,6 +72,12 @@ def carry_data(vals, carrier, conc=None, f=None):
         # masked slots are backed by finite junk
         data = np.array([1234.5 if v == NA else f(v) for v in vals], dtype=np.float64)
         return np.ma.MaskedArray(data, mask=[v == NA for v in vals])
+    if carrier == "ma_mixed":
+        # a masked array in which some missing values are masked (over finite junk) and others are plain unmasked NaN
+        miss = [i for i, v in enumerate(vals) if v == NA]
+        data = np.array([f(v) if v != NA else (1234.5 if miss.index(i) % 2 == 0 else math.nan)
+                         for i, v in enumerate(vals)], dtype=np.float64)
+        return np.ma.MaskedArray(data, mask=[v == NA and miss.index(i) % 2 == 0 for i, v in enumerate(vals)])
     if carrier == "series":
         return pd.Series(np.array(fl, dtype=np.float64))
     if carrier == "series_idx":
@@ -205,7 +211,8 @@ def build(call, conc):
             inp = np.array([np.datetime64("NaT") if v == NA else tv(v) for v in call["x"]], dtype="datetime64[ns]")
             if c["xc"] == "series":
                 inp = pd.Series(inp)
-            vs = [None if p["lo"] == NA else tv(p["lo"]), None if p["hi"] == NA else tv(p["hi"])]
+            nobound = np.datetime64("NaT") if c.get("natbound") else None      # both spell "no bound" for datetimes
+            vs = [nobound if p["lo"] == NA else tv(p["lo"]), nobound if p["hi"] == NA else tv(p["hi"])]
         else:
             inp = X()
             vs = [None if p["lo"] == NA else fv(p["lo"]), None if p["hi"] == NA else fv(p["hi"])]
@@ -252,6 +259,9 @@ def build(call, conc):
             kw["bbox"] = span(p["bbox"], c, half)
         if len(p["rmax"]):
             kw["range_max"] = rat(p["rmax"])
+        if p.get("shapes") == "differ":
+            kw["lon"] = np.asarray(np.ma.filled(np.ma.masked_invalid(np.array(
+                [math.nan if v is None else v for v in list(kw["lon"])], dtype=np.float64)), np.nan)).reshape(1, -1)
         return qartod.location_test, kw
     if fn == "speed":
         half = lambda v: v * 0.5  # noqa: E731
